@@ -1964,6 +1964,42 @@ func (db *SiteDB) wrapperLocks(w *Wrapper) []wlock {
 					found = true
 					return false
 				}
+				// the callback is called inside a literal handed to another wrapper on the same
+				// receiver (p.withChildrenRLocked(func() { ... fn(x) ... })): that wrapper's
+				// locks are held as well
+				if w2 := db.Wrappers[callee(info, v)]; w2 != nil && w2.Fn != w.Fn && w2.ParamIdx < len(v.Args) {
+					if lit, isLit := unparen(v.Args[w2.ParamIdx]).(*ast.FuncLit); isLit {
+						if sel, ok := unparen(v.Fun).(*ast.SelectorExpr); ok && recvObj != nil && objOf(info, sel.X) == recvObj {
+							saved := held
+							for _, il := range db.wrapperLocks(w2) {
+								if il.recv != nil {
+									f2 := db.L.FuncOf(w2.Fn)
+									if f2 != nil && f2.Decl.Recv != nil && len(f2.Decl.Recv.List[0].Names) == 1 && il.Inst == f2.Decl.Recv.List[0].Names[0].Name {
+										il.Inst = fi.Decl.Recv.List[0].Names[0].Name
+										il.recv = recvObj
+										held = append(held, il)
+									}
+								}
+							}
+							walkLit := lit.Body
+							ast.Inspect(walkLit, func(k ast.Node) bool {
+								if found {
+									return false
+								}
+								if c, isCall := k.(*ast.CallExpr); isCall && objOf(info, c.Fun) == param {
+									result = append([]wlock{}, held...)
+									found = true
+									return false
+								}
+								return true
+							})
+							held = saved
+							if found {
+								return false
+							}
+						}
+					}
+				}
 				key := calleeKey(info, v)
 				if op, mode := mutexOp(key); op != "" {
 					if sel, ok := unparen(v.Fun).(*ast.SelectorExpr); ok {
